@@ -12,8 +12,9 @@ common.build_capy()
 print('capy built:', common.CAPY)
 try:
     from lib import llcheck
-    llcheck.build_harness()
-    print('llharness built')
+    for crate in ('llharness', 'llharness_cg', 'llharness_diag'):
+        llcheck.build_harness(crate)
+        print(crate, 'built')
 except ImportError:
     pass
 PY
